@@ -28,6 +28,16 @@ CLAIMED = {
         "DESIGN.md section 4, C01",
         "numpy / msgpack value semantics trusted.",
     ),
+    "C14": (
+        "array co-update per block + re-entrant iteration + view completeness along the MRO",
+        "Decides that every block of every ConformerEnsemble method that rebinds one of _coords/_atomic_charges/_weights with a "
+        "shape-changing constructor rebinds all three (literal shapes agreeing on n_conformers and n_atoms); that __iter__ "
+        "hands out a fresh iterator; that the Conformer view defines a row-writing setter for every slot an inherited public "
+        "setter rebinds, indexes the parent identically in getter and setter and reads the shared fields through; and that "
+        "n_conformers and the array properties are the live arrays.",
+        "DESIGN.md section 4, C14",
+        "broadcasting behaviour of the setters and numeric results are not decided.",
+    ),
     "C02": (
         "commit-last ordering on the statement CFG + writer/reader header table agreement + who-may-write",
         "Decides, on every path of UKVFile.put, that argument validation precedes the first stream write and that "
@@ -56,6 +66,29 @@ CLAIMED = {
         "identity from the resolved path and who-may-call for backend writes. Mutual exclusion itself is fasteners'.",
         "DESIGN.md section 4, C04",
         "schedules and real multi-process behaviour are not explored; fasteners trusted.",
+    ),
+    "C05": (
+        "container co-update across the static MRO + who-may-write + parent bookkeeping",
+        "Decides that along the statically linearised chain Molecule -> Structure -> CartesianGeometry -> Connectivity -> "
+        "Promolecule every primitive that changes the number of atoms (del_atom, add_atom, append_atom) is overridden by each "
+        "class that owns a per-atom container, reaches super() on every normal path, resizes its own container by exactly "
+        "that row along axis 0 with the index computed before the atom is removed, and deletes exactly the atom's bonds; "
+        "that None cannot flow into the charge array; that containers are written only by their owner (no list mutators "
+        "on .atoms/.bonds, no foreign rebinds); that every insertion sets the element's parent; that the Substructure view "
+        "indexes identically in getter and setter; and that add_atom validates before it mutates.",
+        "DESIGN.md section 4, C05",
+        "two open known findings (F5a: append_atom / bond adoption does not extend coordinates and charges).",
+    ),
+    "C06": (
+        "ownership / aliasing rules over copy branches, evolve and the pickling protocol",
+        "Decides that evolve and the Promolecule copy branch deep-copy every mutable attrs field; that each class's copy "
+        "branch moves every container it owns from the source through a copying operation (never an alias); that "
+        "__getstate__ leaves out exactly _parent and __weakref__ (checked against attrs field order / __slots__), "
+        "__setstate__ initialises what is left out and re-parents atoms and bonds, and every attribute kept in __dict__ "
+        "anywhere in the hierarchy is part of the state; that join/concatenate build from copy_atoms=True, evolved/fresh "
+        "bonds and fresh arrays, and transfer partial charges; and that the ensemble copy branch copies all three arrays.",
+        "DESIGN.md section 4, C06",
+        "run-time field-by-field equality is not decided; pickling of Conformer views is outside the rules (noted).",
     ),
     "C07": (
         "decision-table composition over (element x AtomType x AtomGeom) + record column agreement",
